@@ -271,6 +271,62 @@ def os_faults(shard, nshards, binary, tier):
     return res
 
 
+def stale_expiry_records(binary, tier):
+    """Every key that is alive when a save walks the key space is in the dump - also a key whose NAME carried
+    a TTL earlier: collections with a TTL are emptied (the key goes away), re-created without a TTL, and
+    SAVEs are taken through the time in which the old deadlines pass and the sweeper comes by."""
+    res = Result()
+    srv = server.Server(binary, config_text="save \"\"\n").start()
+    try:
+        c = srv.client(timeout=30)
+        want = {}
+        t0 = time.monotonic()
+        for i in range(8):
+            k = b"reborn:%d" % i
+            kind = i % 3
+            if kind == 0:
+                c.cmd("RPUSH", k, "old")
+            elif kind == 1:
+                c.cmd("SADD", k, "old")
+            else:
+                c.cmd("HSET", k, "old", "v")
+            c.cmd("PEXPIRE", k, str(250 + 170 * i))
+            if kind == 0:
+                c.cmd("LPOP", k)
+                c.cmd("RPUSH", k, "new")
+                want[k] = ("list", [b"new"], False)
+            elif kind == 1:
+                c.cmd("SREM", k, "old")
+                c.cmd("SADD", k, "new")
+                want[k] = ("set", [b"new"], False)
+            else:
+                c.cmd("HDEL", k, "old")
+                c.cmd("HSET", k, "new", "v")
+                want[k] = ("hash", [(b"new", b"v")], False)
+        n = 0
+        while time.monotonic() - t0 < (3.0 if tier == "quick" else 8.0):
+            r = c.cmd("SAVE", timeout=30)
+            if r != OK:
+                res.violation("stale-records/save-failed", "SAVE -> %r" % (r,))
+                break
+            passes = c.cmd("VERIF", "SWEEPER", "PASSES")
+            at = time.monotonic() - t0
+            loaded, log = load_dump_in_second_child(binary, read_dump(srv))
+            n += 1
+            res.evaluations += 1
+            missing = [k for k, w in want.items() if norm(loaded.get((0, k), ("none", None, False))) != norm(w)]
+            if missing:
+                res.violation("stale-records/live-key-missing-from-dump", "SAVE %.2f s after the keys were re-created without a TTL (old deadlines 0.25-1.44 s, sweeper passes so far %r): "
+                              "the dump lacks / alters %s, e.g. %s restored as %s" % (at, passes, resp.show(missing), resp.show(missing[0]),
+                                                                                      resp.show(list(loaded.get((0, missing[0]), ("none",))), 40)))
+                break
+        res.count("stale_record_saves", n)
+        res.cell("stale-records", "saves-through-old-deadlines")
+    finally:
+        srv.cleanup()
+    return res
+
+
 def abort_points(shard, nshards, binary, tier):
     """process::abort() at the n-th step: after restart the server holds exactly the last completed dump."""
     res = Result()
@@ -637,6 +693,8 @@ def _w(arg, binary, tier, nshards, seed):
         return directed_holds(shard, nshards, binary, tier)
     if role == "osfault":
         return os_faults(shard, nshards, binary, tier)
+    if role == "stale-records":
+        return stale_expiry_records(binary, tier)
     if role == "resave":
         # "a later save still works": a save that answers +OK has written the dataset of that moment,
         # whatever path the changes since the previous save took (scenario shared with C09)
@@ -665,13 +723,13 @@ def run(tier):
     binary, bt = server.build("dev")
     rsbin.build()
     args = [("fault", i) for i in range(6)] + [("abort", i) for i in range(3)] + [("hold", i) for i in range(5)] + \
-           [("stress", 0)] + [("stress-auto", 0)] + [("loader", 0)] + [("osfault", i) for i in range(4)] + [("resave", 0)]
+           [("stress", 0)] + [("stress-auto", 0)] + [("loader", 0)] + [("osfault", i) for i in range(4)] + [("resave", 0)] + [("stale-records", 0)]
     res = Result()
     for role, count in (("fault", 6), ("abort", 3), ("hold", 5)):
         pass
     # each role is sharded over its own number of workers
     def nsh(role):
-        return {"fault": 6, "abort": 3, "hold": 5, "stress": 1, "stress-auto": 1, "loader": 1, "osfault": 4, "resave": 1}[role]
+        return {"fault": 6, "abort": 3, "hold": 5, "stress": 1, "stress-auto": 1, "loader": 1, "osfault": 4, "resave": 1, "stale-records": 1}[role]
     jobs = []
     for role, shard in args:
         jobs.append((role, shard))
